@@ -18,6 +18,7 @@ EXTENDS Kismet, Json, IOUtils
 Rec == ndJsonDeserialize(IOEnv.TRACE)
 NoProg == <<>>
 NoProcs == {}
+NoDebris == {}
 
 VARIABLES l, rn, skip, drift, nops
 
